@@ -51,7 +51,10 @@ struct Dom
                 // two tracks, first removed; crate created afterwards: track id 2 sits in crate id 1 through membership row 1
                 "create_track(0);create_track(0);remove_track(0);create_root(|p);add_track(0,1)",
                 // nested crates sharing a track (enters one level late: it gets depth - 1 further operations)
-                "@1:create_track(0);create_track(0);create_root(|a);create_sub(0|b);add_track(0,0);add_track(1,0);add_track(1,1)"};
+                "@1:create_track(0);create_track(0);create_root(|a);create_sub(0|b);add_track(0,0);add_track(1,0);add_track(1,1)",
+                // id order against tree order: the populated sub-crate is OLDER than its parent (created as a root, then moved), so that
+                // after removing the parent the sub-crate's id is the first one a schema without AUTOINCREMENT hands out again
+                "@1:create_track(0);create_root(|b);create_root(|a);set_parent(0,1);add_track(0,0)"};
     }
     static std::vector<Op> alphabet(const Model& m, const World&, int)
     {
@@ -102,6 +105,7 @@ struct Dom
             if (op.f == "create_track") m.t.push_back({true, w.tracks.back().id()});
             else if (op.f == "create_root") m.c.push_back({true, w.crates.back().id(), -1});
             else if (op.f == "create_sub") m.c.push_back({true, w.crates.back().id(), (int)op.i[0]});
+            else if (op.f == "set_parent") m.c[op.i[0]].parent = (int)op.i[1];  // seeds only
             else if (op.f == "remove_track")
             {
                 int t = (int)op.i[0];
@@ -237,7 +241,7 @@ int run(const Options& o)
     c["rule"] =
         "Explicit-state BFS on the real library for each schema version. Alphabet in every state: create_track, remove_track(t), create_root_crate, create_sub_crate(p), remove_crate(c), "
         "c.add_track(track), c.add_track(id), c.remove_track(t), c.clear_tracks() for every live crate c and live track t (so re-adding a member and removing a non-member are always included); "
-        "at most 3 live tracks and 3 live crates; four seeds (one with nested crates sharing a track, entering one level late), two of which have created and removed a track, a crate and a membership row first so that the three id spaces differ. "
+        "at most 3 live tracks and 3 live crates; five seeds (one with nested crates sharing a track and one whose populated sub-crate is older than its parent, both entering one level late), two of which have created and removed a track, a crate and a membership row first so that the three id spaces differ. "
         "After every transition: crate.tracks() of every live crate equals the model's member set as a multiset with only valid handles, track.containing_crates() is the exact converse on 1.x "
         "(2.x: 'not yet implemented' is accepted), database::tracks() equals the live set, removed handles stay invalid. Non-trivial = distinct states with at least one membership pair whose "
         "track id differs from its crate id or from its creation rank.";
